@@ -203,3 +203,29 @@ PROPS = {
         "assumptions": COMMON_ASSUME,
     },
 }
+
+# Source bridges: the decision functions below are TRANSLATED from the Go source on every run
+# (tools/extract/gotolean.go -> lean/EdsModel/Generated/Dec*.lean) and proved equal to the hand-written
+# model functions the property theorems are about (lean/EdsProofs/Bridge*.lean, theorems `src_*`).
+BRIDGE_TB = {
+    "EdsProofs.BridgeCanary": "IsRollingUpdatePaused, IsRolloutFrozen, IsCanaryDeployment{Ended,Paused,Unpaused,Valid,Failed}, selectCurrentReplicaSet and nonCanaryState are TRANSLATED from utils.go / controller.go (Generated/DecCanary.lean) and proved equal to the model (EdsProofs/BridgeCanary.lean, src_*)",
+    "EdsProofs.BridgeCleanup": "shouldDeleteERS is TRANSLATED from controller.go (Generated/DecCleanup.lean) and proved equal to the model (EdsProofs/BridgeCleanup.lean, src_shouldDeleteERS)",
+    "EdsProofs.BridgeDefaults": "IsDefaulted*, Default* and ValidateExtendedDaemonSetSpec are TRANSLATED from extendeddaemonset_default.go / _validate.go (Generated/DecDefaults.lean) and proved equal to the model, nil dereference = none (EdsProofs/BridgeDefaults.lean, src_*)",
+    "EdsProofs.BridgeSlowStart": "getRollingUpdateStartTime and calculateMaxCreation are TRANSLATED from rollingupdate.go (Generated/DecSlowStart.lean) and proved equal to the model (EdsProofs/BridgeSlowStart.lean, src_*)",
+}
+BRIDGES = {
+    "C05": ["EdsProofs.BridgeCanary"],
+    "C08": ["EdsProofs.BridgeCanary"],
+    "C14": ["EdsProofs.BridgeCanary"],
+    "C19": ["EdsProofs.BridgeCanary"],
+    "C07": ["EdsProofs.BridgeCleanup", "EdsProofs.BridgeCanary"],
+    "C13": ["EdsProofs.BridgeCleanup"],
+    "C16": ["EdsProofs.BridgeDefaults", "EdsProofs.BridgeSlowStart"],
+    "C09": ["EdsProofs.BridgeSlowStart"],
+}
+for _p, _mods in BRIDGES.items():
+    PROPS[_p].setdefault("extra_theorems", [])
+    PROPS[_p].setdefault("trusted_base", [])
+    for _m in _mods:
+        PROPS[_p]["extra_theorems"] = PROPS[_p]["extra_theorems"] + [(_m, "src_")]
+        PROPS[_p]["trusted_base"] = PROPS[_p]["trusted_base"] + [BRIDGE_TB[_m]]
